@@ -409,7 +409,24 @@ def rule_token_extent(ck, facts):
                     chains_seen.add(sig)
                     ok = False
                     if len(lens) == 3 and lens[1] == ("k", 1, "usize") and lens[0][0] == "fld" and lens[2][0] == "fld" and lens[0][1] == lens[2][1] and (lens[0][2], lens[2][2]) == (0, 1):
-                        fam = facts.family(roles.LANG, f.root)
+                        fam = list(facts.family(roles.LANG, f.root))
+                        # plus the helper functions of the same module the family calls (<= 2 calls away): the split
+                        # may live in a named function
+                        mod = f.root.rsplit("::", 1)[0]
+                        seen_f = {g.path for g in fam}
+                        frontier = list(fam)
+                        for _lvl in range(2):
+                            nxt = []
+                            for g in frontier:
+                                for _, t2 in g.calls():
+                                    c2 = callee(t2) or ""
+                                    if c2.startswith(mod + "::") and c2 not in seen_f:
+                                        for h in facts.family(roles.LANG, c2):
+                                            if h.path not in seen_f:
+                                                seen_f.add(h.path)
+                                                fam.append(h)
+                                                nxt.append(h)
+                            frontier = nxt
                         pair_ok = False
                         for g in fam:
                             for _, st in g.all_stmts():
